@@ -1,13 +1,39 @@
 """C10 — requests go only to eligible ready peers; answers return to their sender (Mon_C10.tla)"""
 from . import nodecommon as nc
-from .c10_plan import PROFILE, plans, ASSUME
+from .c10_plan import PROFILE, plans, ASSUME, enum_plans
 
 
 def run(tier, seed):
     mc, sim = plans(tier)
-    ck = nc.run_property("C10", tier, seed, "Inv10", PROFILE, mc, sim, 1500 if tier == "thorough" else 240, ASSUME)
+    ck = nc.run_property("C10", tier, seed, "Inv10", PROFILE, mc, sim, 1500 if tier == "thorough" else 240, ASSUME, enum_plan=enum_plans(tier))
+    # ---- schedules: one action under every thread schedule within the preemption bound -------------
+    from .. import schedscen, nodetrace as nt
+    P = 3 if tier == "thorough" else 2
+    runs, n = schedscen.explore_scenario(schedscen.c10_send_with_fast_peer, P)
+    res = nt.mon_batch(runs[0][0]["params"], [r["steps"] for r, _ in runs], "c10_sched")
+    for (r, sched), v in zip(runs, res):
+        for x in v.get("C10", []):
+            ck.violation(x["sig"] + ":schedule", "scenario c10_send_with_fast_peer under schedule %r: %s" % (sched, [nc.brief(e) for e in r["steps"][-1]["out"]]),
+                         {"sched_scenario": "c10_send_with_fast_peer", "schedule": sched})
+        if r["exits"]:
+            ck.note("thread exits in a schedule scenario (judged by C14): %r" % (r["exits"][:2],))
+    ck.cov["schedules_explored"] = n
+    ck.cov["schedule_preemption_bound"] = P
+    ck.cov["schedule_distinct_outcomes"] = len(runs)
     return ck.finish()
 
 
 def replay(path, seed):
+    import json
+    body = json.load(open(path))
+    if "sched_scenario" in (body.get("replay") or {}):
+        from .. import schedscen, explore, nodetrace as nt
+        rp = body["replay"]
+        r = getattr(schedscen, rp["sched_scenario"])(explore.Decisions(rp["schedule"]))
+        v = nt.mon_batch(r["params"], [r["steps"]], "c10_sched_replay")[0].get("C10", [])
+        print("replayed schedule: %s" % v)
+        if v:
+            print("VIOLATION property=C10 replay=%s" % path)
+            return 1
+        return 0
     return nc.replay_file("C10", path)
